@@ -6,8 +6,9 @@
   concrete numbering of the storage calls of the real code) and over every fault index j.
 -/
 import MW.Lemmas.PersistFault
+import MW.Lemmas.PersistCrash
 namespace MW.Props.C18
-open MW MW.Model.Ledger MW.Model.Persist MW.Spec.Persist MW.Lemmas.PersistOp MW.Lemmas.PersistFault
+open MW MW.Model.Ledger MW.Model.Persist MW.Spec.Persist MW.Lemmas.PersistOp MW.Lemmas.PersistFault MW.Lemmas.PersistCrash
 
 /-- tie B: the Update call-site table of the code is the one the model is built on -/
 theorem sites_expected : Gen.Updates.sites = expectedSites := rfl
@@ -151,6 +152,29 @@ theorem retry_equiv_newAddr (env : Env) (nA nB nC : Nat) (stk : Bool) (P : PStor
     · simp [e]
     · simp [e, insertAddr_idem]
 
+/-- retry_equiv for the follower's OWN retry: the notification of block `b` (which extends the tip)
+    failed — by `fault_restores_coh_block` store and volatile state are what they were —, the node
+    goes on, and the NEXT notification `b2` (child of `b`) takes the reorganisation path: nothing is
+    disconnected, `b` and `b2` are connected in one batch, and the result is exactly the state of the
+    fault-free sequence `b`, `b2` (same store, same tip copy, same pending-id / expiry maps): no lost
+    and no doubly applied block. Partial in one hypothesis: `hready` — connecting `b` does not change
+    which wallets are ready (filterBlock never writes the wallet status; not proved here because it
+    needs invariants through all loops of AddRelevantTx). If `b2` itself fails in the sequence, the
+    batch of the retry fails as a whole (then also `b` is not applied) and the following notification
+    retries again. -/
+theorem retry_equiv_follower_partial (env : Env) (n : Nat) (b b2 xb : Block) (P : PStore) (V : PVol)
+    (hb : env.node.fetchBlock b2.prev = some b) (hx : env.node.fetchBlock b.prev = some xb)
+    (hp : b.prev = V.led.best.hash) (hne : b.id ≠ V.led.best.hash)
+    (hh2 : b2.height = V.led.best.height + 2) (hh1 : b.height = V.led.best.height + 1)
+    (hhx : xb.height = V.led.best.height)
+    (hready : ∀ s1 c1, filterBlock (ctxOf env V) P.led (readyWallets P.led (ctxOf env V).wallets) b = .ok (s1, c1) →
+        readyWallets s1 (ctxOf env V).wallets = readyWallets P.led (ctxOf env V).wallets)
+    (hok : ((opBlock env n b).run none P V).ok = true)
+    (hok2 : ((opBlock env n b2).run none ((opBlock env n b).run none P V).P ((opBlock env n b).run none P V).V).ok = true) :
+    (opBlock env n b2).run none P V =
+      (opBlock env n b2).run none ((opBlock env n b).run none P V).P ((opBlock env n b).run none P V).V :=
+  follower_retry env n b b2 xb P V hb hx hp hne hh2 hh1 hhx hready hok hok2
+
 /-- no skipped or duplicated address index: NewAddress keeps every wallet's indexes 0 … next−1 -/
 theorem newAddr_no_skipped_or_duplicated_index (env : Env) (nA nB nC : Nat) (stk : Bool) (P : PStore) (V : PVol)
     (w : Wid) (r c : KsRec) (hcur : V.cur = some w) (hr : AMap.get P.ks w = some r) (hk : AMap.get V.keys w = some c)
@@ -180,5 +204,20 @@ example : ((opNewAddr env0 2 2 2 false).run (some 7) P1 V1).ok = false := by dec
 example : (((opNewAddr env0 2 2 2 false).run (some 7) P1 V1).V.keys) = [("W1", { next := 1, addrs := [(0, "W1/0")] })] := by decide
 example : allFail (opNewAddr env0 2 2 2 false) [7, 3, 0] P1 V1 = true := by decide
 example : ((opCreate 3 1 1 "W2").run (some 4) P1 V1).ok = false ∧ ((opCreate 3 1 1 "W2").run (some 4) P1 V1).V.keys = V1.keys := by decide
+
+/-- the hypotheses of `retry_equiv_follower_partial` are satisfiable (chain G ← B1 ← B2, wallet at G) -/
+def g0 : Block := ⟨"G", "", 0, []⟩
+def bb1 : Block := ⟨"B1", "G", 1, []⟩
+def bb2 : Block := ⟨"B2", "B1", 2, []⟩
+def envN : Env := { node := { chain := [g0, bb1, bb2], known := [("G", g0), ("B1", bb1), ("B2", bb2)] } }
+example : envN.node.fetchBlock bb2.prev = some bb1 := rfl
+example : envN.node.fetchBlock bb1.prev = some g0 := rfl
+example : bb1.prev = ({} : PVol).led.best.hash ∧ bb1.id ≠ ({} : PVol).led.best.hash ∧
+    ((opBlock envN 3 bb1).run none {} {}).ok = true ∧
+    ((opBlock envN 3 bb2).run none ((opBlock envN 3 bb1).run none {} {}).P ((opBlock envN 3 bb1).run none {} {}).V).ok = true ∧
+    ((opBlock envN 3 bb2).run none {} {}).P.led.syncedTo = 2 := by decide
+example : ∀ s1 c1, filterBlock (ctxOf envN {}) ({} : PStore).led (readyWallets ({} : PStore).led (ctxOf envN {}).wallets) bb1 = .ok (s1, c1) →
+    readyWallets s1 (ctxOf envN {}).wallets = readyWallets ({} : PStore).led (ctxOf envN {}).wallets := by
+  intro s1 c1 _; rfl
 
 end MW.Props.C18
